@@ -176,6 +176,9 @@ def plan(tier, seed):
             ov = other_value(l)
             if ov:
                 variants.append((f'duplicate:before{i}', text(lines[:i] + [ov] + lines[i:])))
+                # the governing line textually identical to an earlier occurrence, another value in between (x, y, x): still the last one governs
+                variants.append((f'duplicate:xyx{i}', text(lines[:i] + [l, ov] + lines[i:])))
+                variants.append((f'duplicate:xyx-top{i}', text([l, ov] + lines)))
                 variants.append((f'duplicate:first-line{i}', text([ov] + lines)))
             variants.append((f'duplicate:same-after{i}', text(lines + [l])))
         # the client's "params override the base file" path: the file carries another value for some parameters (or does not mention them), the
@@ -246,7 +249,7 @@ def run(tier, seed, budget=None):
               '(quick: every 6th permutation for two of them); for full-size inputs (3; thorough 5): reversal, both sorts, all rotations, all adjacent '
               'transpositions, every single-line move to front/back; decorations on all lines at once and on each line singly (blanks, tabs, the twelve other characters str.strip() removes, blanks around '
               'commas, five comment-field styles, CR, comment lines with each prefix, blank lines, missing final newline); a duplicate with a different '
-              'in-range value inserted before each line / at the top (last occurrence governs) and an identical duplicate appended; the override '
+              'in-range value inserted before each line / at the top (last occurrence governs), the x, y, x pattern, and an identical duplicate appended; the override '
               'dictionary of the client on top of a base file; an input using add-ons and S-DAC-GT by auto-detection with its two blocks moved to every position (add-on lines in their own order) (4 choices of overridden lines x 2 dictionary orders x 6 layouts of the end of the file). Oracle: computed '
               'results bit-identical and report text identical (clock lines removed)'),
         assumptions=['duplicate-with-different-value is not applied to the structural options that Model.__init__ reads from the raw input before modules exist',
